@@ -70,7 +70,7 @@ SPECS = {
         "engines": [
             {"name": "hist", "tag": "c10", "extra": "prop=C10", "n": {"quick": 500, "thorough": 6000}},
         ],
-        "explanation": "Theorems on the protocol model: non-forced compaction is refused while a client is attached; a compaction bumps the epoch, leaves at most one row and purges the vector rows; a client of an older epoch can add nothing to the log whatever it sends, its pull is refused with ErrEpochMismatch, its detach goes through. Histories with normal and forced compactions (run through the cluster client as housekeeping does), stale syncs with unsent edits, detaches and fresh attaches are executed on the real server and replayed through the model; oracles on the implementation: content of the server document before = content rebuilt from the compacted log, refused compaction changes nothing, stale sync is refused and stores nothing, stale detach succeeds, everybody converges after re-attaching.",
+        "explanation": "Theorems on the protocol model: non-forced compaction is refused while a client is attached; a compaction bumps the epoch, leaves at most one row and purges the vector rows; a client of an older epoch can add nothing to the log whatever it sends, its pull is refused with ErrEpochMismatch, its detach goes through. Histories with normal and forced compactions (run through the cluster client as housekeeping does), stale syncs with unsent edits, detaches and fresh attaches are executed on the real server and replayed through the model; oracles on the implementation: content of the server document before = content rebuilt from the compacted log, refused compaction changes nothing, stale sync is refused and stores nothing, stale detach succeeds, everybody converges after re-attaching. Step Kq: a forced compaction while the snapshot a sync started in the background is held right before it is written (finding P50, repaired by 2747fa53: the old epoch's snapshot was stored into the new epoch).",
         "assumptions": ["content preservation rests on the rebuild-and-compare step of packs.Compact (YSON round trip, property C18): oracle, not theorem"],
     },
     "C11": {
@@ -162,7 +162,7 @@ SPECS = {
         "engines": [
             {"name": "locks", "race": True, "n": {"quick": 1, "thorough": 1}, "spec_corr": "lock order doc -> pull -> attachment -> push (docs/design/fine-grained-document-locking.md)"},
         ],
-        "explanation": "Theorem: threads taking named reader/writer locks (writer preference) in strictly increasing class order never deadlock - progress in every reachable state, any number of threads, any keys, any schedule; instantiated for any table of handler sequences that follow the order. The table is regenerated on every run by a translator (lockscan: Go AST of server/rpc, packs, documents, clients, projects, revisions; acquisitions in source order, callees and ClusterService calls inlined, asynchronous function literals as separate entry points) and every extracted sequence must satisfy the premise. The pre-repair order of ClusterService.DetachDocument is exhibited as a three-party deadlock in the model. Workload in a race-detector build: 8 SDK clients x 3 documents attach/edit/sync/watch/detach/deactivate in parallel with compaction and housekeeping passes on a real server with tiny snapshot settings: every call returns within 30 s (goroutine dump otherwise), no unexpected error, no race report, convergence and a dense ordered log afterwards.",
+        "explanation": "Theorem: threads taking named reader/writer locks (writer preference) in strictly increasing class order never deadlock - progress in every reachable state, any number of threads, any keys, any schedule; instantiated for any table of handler sequences that follow the order. The table is regenerated on every run by a translator (lockscan: Go AST of server/rpc, packs, documents, clients, projects, revisions; acquisitions in source order, callees and ClusterService calls inlined, asynchronous function literals as separate entry points) and every extracted sequence must satisfy the premise. The pre-repair order of ClusterService.DetachDocument is exhibited as a three-party deadlock in the model. Workload in a race-detector build: 8 SDK clients x 3 documents attach/edit/sync/watch/detach/deactivate in parallel with compaction and housekeeping passes on a real server with tiny snapshot settings: every call returns within 30 s (goroutine dump otherwise), no unexpected error, no race report, convergence and a dense ordered log afterwards. After the workload every document must be rebuildable from the store; an unexpected server error is diagnosed on the spot (which stored change fails on which stored snapshot).",
         "assumptions": [
             "PARTIAL: data-race freedom and memory safety are searched with the race detector, not proved (no executable Gallina model exhibits the Go memory model)",
             "the translator assumes locks are released with defer (held until the entry point returns: conservative) and resolves callees by package/receiver name; a handler it cannot see is not in the table (the engine fails if fewer than 8 entry points with locks are found)",
